@@ -174,6 +174,26 @@ def modulator_amplitude_polarity(repo: Repo, ci_demod: ClassInfo) -> Optional[st
 _SOFT_TAB_CACHE: Dict[tuple, tuple] = {}
 
 
+def _other_buffers(cc: FuncInfo, env: dict, attrs: dict) -> None:
+    """every other buffer the modulator's table constructor registers (label maps ...) is made available to the demodulator
+    under self.modulator.<name>, evaluated in the constructor's final environment"""
+    from ..constfold import Folder, Unfoldable
+
+    for c_ in ast.walk(cc.node):
+        if isinstance(c_, ast.Call) and attr_chain(c_.func) == "self.register_buffer" and len(c_.args) >= 2 and isinstance(c_.args[0], ast.Constant) and isinstance(c_.args[0].value, str):
+            nm_ = c_.args[0].value
+            if f"self.modulator.{nm_}" in attrs:
+                continue
+            try:
+                val_ = Folder(dict(env), {}).fold(c_.args[1])
+            except (Unfoldable, TypeError, ValueError):
+                continue
+            if isinstance(val_, (list, int, float, complex)):
+                attrs[f"self.modulator.{nm_}"] = val_
+                attrs.setdefault(f"self.{nm_}", val_)
+
+
+
 def soft_sign_tabulated(repo: Repo, ci: ClassInfo, fi: FuncInfo):
     """Finite tabulation for a table-driven soft demodulator whose polarity the abstract domain cannot decide: the paired
     modulator's constructor is evaluated (own arithmetic) for its small orders and both labelings, then the soft branch of
@@ -222,6 +242,7 @@ def soft_sign_tabulated(repo: Repo, ci: ClassInfo, fi: FuncInfo):
                 return done(None, f"modulator tables for order {M_} have an unexpected form")
             pts = [complex(z) for z in pts]
             attrs = {"self.modulator.constellation": pts, "self.modulator.bit_patterns": bp, "self.modulator.levels": [z.real for z in pts], "self.constellation": pts, "self.bit_patterns": bp, "self._bits_per_symbol": b, "self.bits_per_symbol": b, "self.order": M_, "self.gray_coding": gray, "self.normalize": False}
+            _other_buffers(cc, env, attrs)
             try:
                 run_fragment(fi.body, {"y": list(pts), "noise_var": 0.5, "args": PySeq([]), "kwargs": {}}, attrs, funcs=funcs_d, materialise=True, max_steps=4000000)
                 return done(None, "no value returned")
